@@ -4,7 +4,7 @@ C09 -- Every reference resolves to the object its label names, wherever the labe
 (b) Engine E1: documents with k labelled objects and r references in every position (before / between / inside / after),
     plus dangling references; the labelled object is located structurally, independently of the label machinery.
 """
-import itertools
+import itertools, re
 from vp import core, state
 
 ID = 'C09'
@@ -315,9 +315,36 @@ def locate(doc, objs):
     return out, set(id(n) for n in order)
 
 
-def judge_doc(objs, refs):
+# spellings of label names: (written form of zzN, name LaTeX registers for it)
+STYLES = {
+    'plain': ('zz%s', 'zz%s'),
+    'under': ('z_z%s', 'z_z%s'),          # _ and ^ are ordinary characters in a label name, in math mode as well
+    'caret': ('z^z%s', 'z^z%s'),
+    'macro': ('zz\\zzp %s', 'zzq%s'),      # the name is expanded: \def\zzp{q}
+}
+
+
+def restyle(src, style):
+    w = STYLES[style][0]
+    src = re.sub(r'\\(label|ref|pageref)\{zz(\d+|none)\}', lambda m: '\\%s{%s}' % (m.group(1), w % m.group(2)), src)
+    if style == 'macro':
+        src = src.replace('\\begin{document}', '\\def\\zzp{q}\\begin{document}', 1)
+    return src
+
+
+def canon_name(name, style):
+    """registered name -> the canonical zzN it stands for (unchanged if it is not of the styled form)"""
+    if name is None or style == 'plain':
+        return name
+    pat = re.escape(STYLES[style][1]).replace('%s', r'(\d+|none)')
+    m = re.match('^' + pat + '$', str(name))
+    return 'zz' + m.group(1) if m else name
+
+
+def judge_doc(objs, refs, style='plain'):
     from plasTeX.TeX import TeX
-    src = build_doc(objs, refs)
+    src = restyle(build_doc(objs, refs), style)
+    cn = lambda x: canon_name(x, style)
     state.reset()
     try:
         with core.time_limit(20):
@@ -336,7 +363,7 @@ def judge_doc(objs, refs):
     for i, cand in enumerate(targets):
         cand = [c for c in cand if c is not None]
         lab = 'zz%d' % i
-        hit = [c for c in cand if getattr(c, 'id', None) == lab]
+        hit = [c for c in cand if cn(getattr(c, 'id', None)) == lab]
         if not hit:
             problems.append('label %s is not the identifier of object %d (%s): ids %s' % (
                 lab, i, objs[i], [getattr(c, 'id', None) for c in cand]))
@@ -369,7 +396,7 @@ def judge_doc(objs, refs):
         want['zz%d' % target if target >= 0 else 'zznone'] += 1
     seen = {}
     for rn in refnodes:
-        lab = rn.attributes.get('label')
+        lab = cn(rn.attributes.get('label'))
         seen[lab] = seen.get(lab, 0) + 1
         t = rn.idref.get('label')
         if lab == 'zznone':
@@ -387,7 +414,7 @@ def judge_doc(objs, refs):
             problems.append('\\ref{%s} would print %r, expected %r' % (lab, t.ref.textContent if t.ref is not None else None, nums[i]))
     if seen != want:
         problems.append('reference nodes found %r, expected %r' % (seen, want))
-    if doc.context.refs and set(doc.context.refs) - {'zznone'}:
+    if doc.context.refs and set(cn(x) for x in doc.context.refs) - {'zznone'}:
         problems.append('unresolved references left: %s' % sorted(doc.context.refs))
     if problems:
         return 'violation', '; '.join(problems[:3]), src
@@ -404,7 +431,8 @@ def slots_for(objs):
 
 
 def run_block_doc(block):
-    objs, maxrefs = block
+    objs, maxrefs = block[:2]
+    style = block[2] if len(block) > 2 else 'plain'
     rep = core.Report()
     k = len(objs)
     slots = slots_for(objs)
@@ -415,13 +443,15 @@ def run_block_doc(block):
             [c for pair in itertools.combinations_with_replacement(one, r)
              for c in ([pair, pair[::-1]] if pair[0] != pair[1] and pair[0][2] == pair[1][2] else [pair])]
         for refs in combos:
-            v, info, src = judge_doc(objs, refs)
+            v, info, src = judge_doc(objs, refs, style)
             forward = any((t >= 0 and (s if isinstance(s, int) else s[1]) <= t) or t < 0 for c, t, s in refs)
-            rep.case(key=(objs, refs), nontrivial=forward, outcome=info or 'ok')
+            rep.case(key=(objs, refs, style), nontrivial=forward, outcome=info or 'ok')
             rep.count('doc_refs_%d' % r)
             if v != 'ok':
-                rep.violation({'kind': 'doc', 'objs': list(objs), 'refs': [list(x) for x in refs]}, 'all references resolve',
-                              info, src)
+                case = {'kind': 'doc', 'objs': list(objs), 'refs': [list(x) for x in refs]}
+                if style != 'plain':
+                    case['style'] = style
+                rep.violation(case, 'all references resolve', info, src)
             elif r == 2:
                 rep.sample({'document': src})
     return rep.close_block()
@@ -439,7 +469,7 @@ def replay(case):
         return {'verdict': 'violation', 'expected': info['expected'], 'observed': info['observed'],
                 'detail': 'step %s event %s' % (info['step'], info['event'])}
     refs = tuple((c, t, tuple(s) if isinstance(s, list) else s) for c, t, s in case['refs'])
-    v, info, src = judge_doc(tuple(case['objs']), refs)
+    v, info, src = judge_doc(tuple(case['objs']), refs, case.get('style', 'plain'))
     return {'verdict': v, 'expected': 'all references resolve to the labelled objects', 'observed': info, 'detail': src}
 
 
@@ -455,6 +485,10 @@ def run(tier, seed, rep):
                                     and not any(o in ('sec', 'secafter') for o in objs[:objs.index('sub')])):
                 continue    # a subsection needs a section before it for the expected number to be defined
             blocks.append((objs, 2 if k < 3 else 1))
+    # spellings of the label name: every single object (and a few pairs) with one reference, each spelling
+    for style in ('under', 'caret', 'macro'):
+        for objs in [(k_,) for k_ in kinds if k_ != 'sub'] + [('sec', 'eq'), ('eq', 'row2'), ('sec', 'sub')]:
+            blocks.append((objs, 1 if quick else 2, style))
     blocks = core.rotate(blocks, seed)
     core.merge_all(run_block, blocks, rep, chunksize=2)
     return {'exhaustive': not info['capped'],
